@@ -30,7 +30,8 @@ COMPONENTS_REAL = ["gemclus.tree.kauri.Kauri.fit / Tree / predict / score", "com
                    "the SOURCE gemclus/tree/_utils.pyx of the working tree, de-cythonised (gemsim/pyx2py.py) and executed on the same states (no Cython offline)",
                    "scikit-learn pairwise kernels and validation"]
 COMPONENTS_STUB = ["RandomState.choice (feature subsets: faithful / first / last / adversary)",
-                   "find_best_split interposer: always calls the real finder; steering returns another admissible split with probability p"]
+                   "find_best_split interposer: always calls the real finder; steering returns another admissible split with probability p",
+                   "crash at an arbitrary point: seams.LineCrash (sys.settrace) raises when the k-th source line of the library is about to run, in interrupted calls of the history"]
 ASSUMPTIONS = ["the Cython source cannot be rebuilt offline: results describe the prebuilt extension plus kauri.py (see evidence extension_fingerprint)",
                "gain comparisons use tolerance 1e-9*max(1,|J|,sum|K|) because the finder accumulates kernel stocks incrementally",
                "brute force enumerates observed thresholds that separate two distinct values, as the property states"]
